@@ -326,7 +326,7 @@ Proof.
   destruct (String.eqb name "className"). { cbn [fst]. split; [exact (proj1 H) | apply words_good]. }
   destruct (linked tag name).
   - destruct (smem name special_validation_names). { exact H. }
-    destruct (is_binary_string (renamed name)). { exact H. }
+    destruct (is_binary_string (renamed name)). { now apply inv_setAttribute. }
     destruct (is_binary (renamed name)).
     + destruct (match ib with Some b => b | None => match v with Some x => nonempty x | None => false end end).
       { now apply inv_setAttribute. } cbn [fst]. unfold removeAttribute. now apply inv_delitem.
